@@ -104,7 +104,7 @@ def gen_session(rng, n_ops, double_add=False):
                 l = rng.choice(views[v])
             if l in views[v] and not double_add:
                 continue
-            alias = rng.choice([None, None, "add_annotation", "add_all", "add_annotations"])
+            alias = rng.choice([None, None, "add_annotation", "add_all", "add_annotations", "add_all_iter"])
             o = {"op": "cas.add", "h": h, "fs": l}
             if alias:
                 o["alias"] = alias
@@ -216,7 +216,7 @@ def evaluate(ctx, out, sess, tag):
 
 
 def run(ctx, out, budget):
-    out.rule = ("histories over {add (+3 aliases), remove (+alias, also of absent structures), create_view, get_view, "
+    out.rule = ("histories over {add (+3 aliases, add_all also with a one-shot iterator), remove (+alias, also of absent structures), create_view, get_view, "
                 "create_type below any existing type, select by object/full/short name, select_all} on up to 4 views with "
                 "several live handles; oracle = the generator's own bag per view filtered by the declared subtree. "
                 "Non-trivial = distinct select whose expected result is a non-empty strict subset of the view.")
